@@ -74,7 +74,7 @@ ASSUMPTIONS = ["single-threaded use of Network (graph_lock is taken without cont
                "maintained cache by design) is not compared unless STRICT_INTRODUCTIONS is set"]
 REACH = ["insitu_network_checks", "insitu_removed_address_checked", "lru_overflow", "query_then_remove_then_query", "readd_after_remove", "snapshot_roundtrip",
          "blacklist_refusal", "address_change", "shared_address", "promote_walkable_to_verified", "garbage_snapshot",
-         "enum_sequences", "remove_other_object"]
+         "enum_sequences", "remove_other_object", "peer_removed_from_inside_on_peer_added"]
 
 ADDR_SPEC = [("v4", "10.0.0.1", 1001), ("v4", "10.0.0.2", 1002), ("tuple", "10.0.0.3", 1003)]
 N_PEERS = 3
@@ -98,7 +98,7 @@ PRIORITY = ["verified_set", "by_key", "services_for_peer", "by_address", "peers_
 def describe(op: dict) -> str:  # noqa: C901, PLR0911, PLR0912
     o = op["op"]
     if o == "add":
-        return f"add(k{op['k']},A{op['a']}{',reuse' if op.get('reuse') else ''})"
+        return f"add(k{op['k']},A{op['a']}{',reuse' if op.get('reuse') else ''}{',capped' if op.get('cap') else ''})"
     if o == "disc_addr":
         s = "" if op.get("s") is None else f",s{op['s']}"
         return f"disc_addr(k{op['k']}@A{op['a']}->A{op['t']}{s}{',new' if op.get('ns') else ''})"
@@ -197,7 +197,7 @@ def _rand_single(rng) -> dict:  # noqa: ANN001, PLR0911
                        [16, 12, 12, 12, 8, 2, 1, 2, 2, 33])[0]
     k, a = rng.randrange(N_PEERS), rng.randrange(N_ADDRS)
     if kind == "add":
-        return {"op": "add", "k": k, "a": a, "reuse": rng.random() < 0.2}
+        return {"op": "add", "k": k, "a": a, "reuse": rng.random() < 0.2, "cap": rng.random() < 0.12}
     if kind == "disc_addr":
         return {"op": "disc_addr", "k": k, "a": a, "t": rng.randrange(N_ADDRS), "s": rng.choice([None, 0, 1]),
                 "ns": rng.random() < 0.2}
@@ -1000,8 +1000,33 @@ class Run:
         if op.get("reuse"):
             self.told[-1] = f"add(k{k}: last Peer object used for it, addresses {sorted(passed.values())})"
         free_known = [a for a in passed.values() if a in self.m.known and not self.m.owners(a)]
-        self.net.add_verified_peer(peer)
+        fired: list = []
+        obs = None
+        if op.get("cap"):
+            # an application observer enforcing a peer cap: it drops the peer again from inside on_peer_added (two graph operations
+            # nested in one call)
+            net = self.net
+
+            class Cap:
+                def on_peer_added(self, p) -> None:  # noqa: ANN001
+                    fired.append(p)
+                    net.remove_peer(p)
+
+                def on_peer_removed(self, p) -> None:  # noqa: ANN001
+                    pass
+            obs = Cap()
+            self.net.add_peer_observer(obs)
+            self.told[-1] += "[observer removes it again inside on_peer_added]"
+        try:
+            self.net.add_verified_peer(peer)
+        finally:
+            if obs is not None:
+                self.net.remove_peer_observer(obs)
         how = self.m.add(k, passed, peer)
+        if fired:
+            self.c.probe("peer_removed_from_inside_on_peer_added")
+            if self.m.remove_peer(k, self.peer_addrs(fired[0])):
+                self.note_removed([("k", k)] + [("a", a) for a in passed.values()])
         if how in ("new", "readd") and free_known:
             self.c.probe("promote_walkable_to_verified")
         if how == "update" and len(self.m.ver[k]) > 1:
